@@ -75,8 +75,27 @@ def letters():
     ]
 
 
+def conv_letters():
+    """Letters for the frame-boundary sweep: interrupt-sensitive instructions and their neighbours."""
+    return [
+        ('EI', (0xFB,)),
+        ('EI;EI', (0xFB, 0xFB)),
+        ('EI;DI', (0xFB, 0xF3)),
+        ('DI;EI;NOP', (0xF3, 0xFB, 0x00)),
+        ('EI;LD A,I', (0xFB, 0xED, 0x57)),
+        ('EI;LD A,R;EI', (0xFB, 0xED, 0x5F, 0xFB)),
+        ('LD A,I;EI', (0xED, 0x57, 0xFB)),
+        ('EI;DD NOP', (0xFB, 0xDD, 0x00)),
+        ('EI;INC IX', (0xFB, 0xDD, 0x23)),
+        ('EI;HALT', (0xFB, 0x76)),
+        ('EI;IN A,(FE)', (0xFB, 0xDB, 0xFE)),
+        ('DI;LD A,I', (0xF3, 0xED, 0x57)),
+        ('XOR A;LD A,R', (0xAF, 0xED, 0x5F)),
+    ]
+
+
 def build_program(letter, machine, im1):
-    L = dict(letters())
+    L = dict(letters() + conv_letters())
     code = []
 
     def emit(*b):
@@ -147,8 +166,15 @@ def initial_memory(machine, prog):
     return view, banks
 
 
-def record(machine, prog, nframes):
-    """Run the reference model as a recorder.  Returns (frames, final State, memory view, border, outfe)."""
+def record(machine, prog, nframes, cut=None, conv=(0, 0)):
+    """Run the reference model as a recorder.  Returns (frames, final State, memory view, border, outfe).
+
+    cut: the first frame ends after this many instructions (a recorder may end a frame anywhere).
+    conv = (ldair, ei): the recording conventions that rzxplay's playback flags 1 and 2 exist for -
+      ldair: when the last instruction of a frame is LD A,I or LD A,R and the interrupt is accepted next, bit 2 of F is
+             reset (what a real Z80 does);
+      ei:    when the last instruction of a frame is EI the interrupt is not accepted yet: the next frame is a short
+             one (a single instruction), and the interrupt is accepted at the start of the frame after it."""
     mem, banks = initial_memory(machine, prog)
     st = z80ref.State(PC=ORG, SP=0x7A00, A=0x5A, F=0x01, B=0x12, C=0x34, D=0x56, E=0x78, H=0x90, L=0x00, IXh=0x91, IYh=0x5C, IYl=0x3A,
                       I=0x3F, R=0x48, IM=1, IFF=0, T=0)
@@ -169,11 +195,14 @@ def record(machine, prog, nframes):
         if machine == '128K' and port & 0x8002 == 0:
             mem.page(v)
 
-    for _ in range(nframes):
+    short_next = False
+    for fi in range(nframes):
         readings = []
         fetches = 0
         last_pc = st.PC
-        while st.T < FRAME_T:
+        ninstr = 0
+        while st.T < FRAME_T and not (fi == 0 and cut is not None and ninstr >= cut) and not (short_next and ninstr >= 1):
+            ninstr += 1
             last_pc = st.PC
             res = z80ref.step(st, mem, inp, out, frame=1 << 40, int_active=0)
             ins = res.insn
@@ -187,9 +216,16 @@ def record(machine, prog, nframes):
                 raise AssertionError('frame too long for a 16-bit fetch counter')
         frames.append((fetches, bytes(readings)))
         st.T = 0
+        short_next = False
+        if st.IFF and conv[1] and mem[last_pc] == 0xFB and mem[last_pc] != 0x76:
+            # EI convention: the instruction after EI still runs before the interrupt, as a frame of its own
+            short_next = True
+            continue
         if st.IFF:
             if mem[last_pc] == 0x76:
                 st.PC = (st.PC + 1) & 0xFFFF
+            elif conv[0] and mem[last_pc] == 0xED and mem[(last_pc + 1) & 0xFFFF] in (0x57, 0x5F):
+                st.F &= 0xFB
             # interrupt acceptance
             if st.IM == 2:
                 v = (st.I << 8) | 0xFF
@@ -256,11 +292,11 @@ def play(args, d):
     return tools.run_tool('rzxplay', ['--no-screen', '--quiet'] + args)
 
 
-def run_case(machine, fmt, compress, repeat, nframes, letter, im1):
+def run_case(machine, fmt, compress, repeat, nframes, letter, im1, cut=None, conv=(0, 0), flags=0, light=False):
     """Returns (list of problems, executions)."""
     d = tools.workdir()
     prog = build_program(letter, machine, im1)
-    frames, st, mem, banks, hw = record(machine, prog, nframes)
+    frames, st, mem, banks, hw = record(machine, prog, nframes, cut, conv)
     want = expected_state(st, mem, banks, machine, hw)
     init = write_initial_snapshot(machine, fmt, prog, d)
     rzx = os.path.join(d, 'rec.rzx')
@@ -273,7 +309,7 @@ def run_case(machine, fmt, compress, repeat, nframes, letter, im1):
         out = os.path.join(d, 'final_{}{}.szx'.format(py, cmio))
         if os.path.exists(out):
             os.unlink(out)
-        r = play((['--python'] if py else []) + (['--cmio'] if cmio else []) + [rzx, out], d)
+        r = play((['--python'] if py else []) + (['--cmio'] if cmio else []) + (['--flags', str(flags)] if flags else []) + [rzx, out], d)
         n += 1
         tag = '{}{}'.format('--python ' if py else '', '--cmio' if cmio else '').strip() or 'default'
         if r.rc:
@@ -285,6 +321,8 @@ def run_case(machine, fmt, compress, repeat, nframes, letter, im1):
         if diffs:
             problems.append('playback ({}) ends in a different state from the recorder: {}'.format(
                 tag, ', '.join('{}={} (recorded {})'.format(k, got[k] if k != 'ram' else '...', want[k] if k != 'ram' else '...') for k in diffs[:5])))
+    if light:
+        return problems, n, frames
     # stop at every frame, dump the rest, resume
     whole = finals.get((0, 0))
     if whole is not None:
@@ -352,16 +390,32 @@ def cases(tier):
     for cfg in cfgs:
         for letter in L:
             yield cfg, letter
+    # frame-boundary sweep: the first frame ends after EVERY instruction count from the prologue's EI to past the end
+    # of the letter, under each recording convention, played with the matching playback flags (and with flag 4,
+    # which only concerns later snapshots, added)
+    for machine, im1 in (('48K', False), ('48K', True)) if quick else (('48K', False), ('48K', True), ('128K', False)):
+        for letter, code in conv_letters():
+            for cut in range(5, 12):
+                for conv in ((0, 0), (1, 0), (0, 1), (1, 1)):
+                    for extra in ((0, 4) if (quick and conv == (1, 1)) or not quick else (0,)):
+                        yield dict(default, machine=machine, im1=im1, nframes=4, cut=cut, conv=list(conv), flags=conv[0] + 2 * conv[1] + extra), letter
 
 
 def _shard(shard, nshards, tier, seed):
     stats = core.Stats(PROPERTY)
     for i, (cfg, letter) in core.shard_iter(cases(tier), shard, nshards):
-        problems, n, frames = run_case(cfg['machine'], cfg['fmt'], cfg['compress'], cfg['repeat'], cfg['nframes'], letter, cfg['im1'])
+        swept = 'cut' in cfg
+        problems, n, frames = run_case(cfg['machine'], cfg['fmt'], cfg['compress'], cfg['repeat'], cfg['nframes'], letter, cfg['im1'],
+                                       cfg.get('cut'), tuple(cfg.get('conv', (0, 0))), cfg.get('flags', 0), light=swept)
         stats.evaluations += 1
         stats.transitions += n
         stats.traces += 1
         ctag = '{machine}/{fmt}/z{compress:d}/rep{repeat:d}/F{nframes}/im{im}'.format(im=1 if cfg['im1'] else 2, **cfg)
+        if swept:
+            ctag += '/cut{}/conv{}{}/flags{}'.format(cfg['cut'], cfg['conv'][0], cfg['conv'][1], cfg['flags'])
+            stats.counters['boundary_sweep'] += 1
+            if any(f[0] <= 2 for f in frames[1:]):
+                stats.counters['short_frame_after_EI'] += 1
         stats.state((ctag, letter))
         stats.nontriv((ctag, letter))
         stats.counters['port_readings'] += sum(len(f[1]) for f in frames)
@@ -382,18 +436,19 @@ def run(tier, seed):
         rule='recordings made by the reference-model recorder for prologue + each of {} letters + polling loop; configurations = deviations <= {} '
              'from (48K, z80 snapshot, compressed, no repeat marker, 3 frames, IM 2) over 128K, szx, uncompressed, repeat marker, 2/5 frames, IM 1 (ROM '
              'interrupt routine); each case: playback on all 4 simulator choices vs the recorder state, EVERY stop frame 1..F-1 with dump + resume, '
-             'rzxinfo --frames vs the recorded counters and readings. evaluations = recordings; transitions = tool executions'.format(
+             'rzxinfo --frames vs the recorded counters and readings; frame-boundary sweep: 13 interrupt-sensitive letters x the first frame ended after every instruction count 5..11 x 4 recording conventions (LD A,I/R flag fix, EI + short frame) played with the matching --flags value (and +4). evaluations = recordings; transitions = tool executions'.format(
                  len(letters()), 2 if tier == 'quick' else 3),
         exhaustive=True,
         bound='all letters x configuration deviations d <= {}; all stop frames'.format(2 if tier == 'quick' else 3),
-        assumptions=['recorder = mc/refs/z80ref.py run with the RZX conventions (M1 fetch counting, frame-end interrupt, clock restart); playback flags 0',
+        assumptions=['recorder = mc/refs/z80ref.py run with the RZX conventions (M1 fetch counting, frame-end interrupt, clock restart); playback flags 0 for the main space, flags 1/2/3 (+4) in the frame-boundary sweep with recordings made under the matching convention',
                      'recorded frames are {} T-states long (an RZX frame is defined by its fetch counter, not by the 50 Hz frame)'.format(FRAME_T)],
-        required_guards=['port_readings', 'frames', 'repeat_marker_used'],
+        required_guards=['port_readings', 'frames', 'repeat_marker_used', 'boundary_sweep', 'short_frame_after_EI'],
     )
     return stats, meta
 
 
 def replay(case):
     cfg = case['cfg']
-    p, n, frames = run_case(cfg['machine'], cfg['fmt'], cfg['compress'], cfg['repeat'], cfg['nframes'], case['letter'], cfg['im1'])
+    p, n, frames = run_case(cfg['machine'], cfg['fmt'], cfg['compress'], cfg['repeat'], cfg['nframes'], case['letter'], cfg['im1'],
+                            cfg.get('cut'), tuple(cfg.get('conv', (0, 0))), cfg.get('flags', 0), light='cut' in cfg)
     return p
